@@ -57,14 +57,16 @@ impl C17 {
         let swaps: Vec<&crate::chain::ExecRec> = tr.execs.iter().filter(|x| x.caller == DISPATCHER && x.callee == SWAP).collect();
         // the balancing swap is the SwapDenom whose offered coin is one of the two reward coins
         let main: Vec<&crate::chain::ExecRec> = swaps.iter().filter(|x| x.funds.len() == 1 && (x.funds[0].denom == USEI || x.funds[0].denom == KUSD)).cloned().collect();
-        if main.len() > 1 {
-            out.violation(P, "offer_within_holdings", format!("{} balancing swaps in one SwapToRewardDenom", main.len()));
+        // per coin: the sum of what is offered never exceeds what is held (any number of swaps)
+        let offered = |d: &str| -> u128 { main.iter().filter(|x| x.funds[0].denom == d).map(|x| x.funds[0].amount.u128()).sum() };
+        let (offer_u, offer_k) = (offered(USEI), offered(KUSD));
+        if offer_u > u0 {
+            out.violation(P, "offer_within_holdings", format!("offers {} {} but holds {}", offer_u, USEI, u0));
         }
-        let (offer_denom, offer_amount) = main.first().map(|x| (x.funds[0].denom.clone(), x.funds[0].amount.u128())).unwrap_or((KUSD.to_string(), 0));
-        let holding = if offer_denom == USEI { u0 } else { kt };
-        if offer_amount > holding {
-            out.violation(P, "offer_within_holdings", format!("offers {} {} but holds {} (incl. conversion proceeds)", offer_amount, offer_denom, holding));
+        if offer_k > kt {
+            out.violation(P, "offer_within_holdings", format!("offers {} {} but holds {} (incl. conversion proceeds)", offer_k, KUSD, kt));
         }
+        let offer_denom = if offer_u > 0 { USEI } else { KUSD };
         if bb + bs == 0 {
             return;
         }
@@ -77,7 +79,7 @@ impl C17 {
         // rounding allowance in stSei-reward coin: share floor, inverse-price truncation and two swap floors (each below
         // one unit of the coin received: one usei, or one kusd = 1/p usei)
         let inv_p_ceil = mul_div_ceil(E18, 1, p.max(1)).max(1);
-        let tol = 4 + 2 * inv_p_ceil;
+        let tol = 4 + (1 + main.len().max(1) as u128) * inv_p_ceil;
         if diff > Uint512::from(tol) * den {
             out.violation(
                 P,
